@@ -55,13 +55,16 @@ func c18NameLabel(n string) string {
 	return n
 }
 
+// keys: two plain ones, one that looks like an entity file, and one that is another key plus ".tmp"
+var c18Keys = []string{"k1", "x.entity", "k1.tmp"}
+
 type c18Model struct {
 	kv map[string][]byte
 }
 
 func c18StorageOps() []c18Op {
 	var ops []c18Op
-	for _, k := range []string{"k1", "k2", "x.entity"} {
+	for _, k := range c18Keys {
 		for v := range c18Vals {
 			ops = append(ops, c18Op{Op: "set", Key: k, Val: v})
 		}
@@ -113,7 +116,7 @@ func c18Play(c *fw.Ctx, layer string, hist []c18Op, dir string) (state string, o
 	}
 	checkAll := func(after string) bool {
 		if layer == "storage" {
-			for _, k := range []string{"k1", "k2", "x.entity"} {
+			for _, k := range c18Keys {
 				got, err := st.Get(k)
 				want, present := model[k]
 				switch {
@@ -331,6 +334,9 @@ func c18Tree(c *fw.Ctx, layer string, ops []c18Op, depth, part, parts int) {
 }
 
 func c18Run(c *fw.Ctx) {
+	if c.Thorough() {
+		c18Keys = []string{"k1", "k2", "x.entity", "k1.tmp"}
+	}
 	depth := 4
 	if c.Thorough() {
 		depth = 6
@@ -373,7 +379,7 @@ func init() {
 	fw.Register(&fw.Check{
 		ID:     "C18",
 		Level:  "model_checking",
-		Rule:   "explicit-state breadth-first search over the real file storage and pairing database: alphabet Set(k,v) for 3 keys × 5 values (lengths 0,1,3,6,4096), Get, Delete, KeysWithSuffix × 3 suffixes, reopen; SaveEntity (3 key lengths) / EntityWithName / DeleteEntity / Entities / reopen for 9 entity names (ASCII, empty, non-ASCII, with slash, with colon, 100 arbitrary bytes, invalid UTF-8 ending in 0xfe and in 0xee, a name ending in '.entity'). State = exact directory content (file names and bytes); every operation is executed in every discovered state by replaying the state's shortest history on a fresh directory; after every step all keys, listings and entities are compared with a Go map. Because that merging is sound only if the storage object holds nothing but the path, EVERY history of length 3 (thorough 4) over a reduced alphabet (2 keys × 4 values, get, delete, listing, reopen; 3 entity names) is additionally replayed without merging. distinct_nontrivial = distinct (layer, operation) classes executed",
+		Rule:   "explicit-state breadth-first search over the real file storage and pairing database: alphabet Set(k,v) for 3 keys (thorough 4; one looks like an entity file, one is another key plus .tmp) × 5 values (lengths 0,1,3,6,4096), Get, Delete, KeysWithSuffix × 3 suffixes, reopen; SaveEntity (3 key lengths) / EntityWithName / DeleteEntity / Entities / reopen for 9 entity names (ASCII, empty, non-ASCII, with slash, with colon, 100 arbitrary bytes, invalid UTF-8 ending in 0xfe and in 0xee, a name ending in '.entity'). State = exact directory content (file names and bytes); every operation is executed in every discovered state by replaying the state's shortest history on a fresh directory; after every step all keys, listings and entities are compared with a Go map. Because that merging is sound only if the storage object holds nothing but the path, EVERY history of length 3 (thorough 4) over a reduced alphabet (2 keys × 4 values, get, delete, listing, reopen; 3 entity names) is additionally replayed without merging. distinct_nontrivial = distinct (layer, operation) classes executed",
 		Shards: func(string) int { return 16 },
 		Run:    c18Run,
 		Replay: func(c *fw.Ctx, raw json.RawMessage) {
